@@ -78,7 +78,6 @@ NOT_APPLICABLE = {
     'C13': 'statement about the real function e^x to one ulp; contracts here are integer-only and the Taylor loop has no termination measure (DESIGN.md section 7)',
     'C17': 'feature-gated code generic over foreign serde traits and strings; no contract within reach (DESIGN.md section 7)',
 }
-NOT_APPLICABLE['C05'] = _WIP
 
 _NOTE_COMMON = ('Assumed: num-bigint/num-traits/num-integer contracts (spec/shim_base.rs, vf/shimgen.py), std specs, '
                 'size bound 2^60 on digit vectors, the extractor and its rewrite table; machine arithmetic is NOT treated as mathematical '
@@ -154,7 +153,9 @@ prop('C10', units=['roots', 'core', 'context', 'config'], level='proof',
      hooks=[_h.replay_hook([
          dict(args=['sqrt', '4' + '0' * 210]), dict(args=['sqrt_ctx', _X42, '5', 'Up']), dict(args=['sqrt_ctx', _X42, '20', 'Up']),
          dict(args=['sqrt_ctx', '2', '10', 'Down']), dict(args=['sqrt_ctx', '2', '7', 'Up']), dict(args=['sqrt_ctx', '152.2756', '4', 'HalfEven']),
-         dict(args=['sqrt', '1e-30']), dict(args=['sqrt_ctx', '99999999', '3', 'Floor'])])],
+         dict(args=['sqrt', '1e-30']), dict(args=['sqrt_ctx', '99999999', '3', 'Floor']),
+         # long even-length coefficients (more than 2(p+5) digits) just above a representable root
+         dict(args=['sqrt_ctx', '3036.01001102000001', '3', 'Up']), dict(args=['sqrt_ctx', '3052.56001105000001', '3', 'HalfDown'])])],
      level_text=('PARTIAL. Verus proves the entry points only: sqrt() is sqrt_with_context at the configured default context (symbolic), zero and one are returned '
                  'unchanged, a negative input gives None, the reference forms give None / zero / the root of the magnitude, the absolute-value form takes the root of |x| and '
                  'the copy-sign form returns exactly that root with the sign of x. The numeric core impl_sqrt is NOT under contract (its result is an uninterpreted function), so '
@@ -166,7 +167,9 @@ prop('C11', units=['roots', 'core', 'context', 'config'], level='proof',
      hooks=[_h.replay_hook([
          dict(args=['cbrt_ctx', _X42, '5', 'Up']),
          dict(args=['cbrt_ctx', '-27', '5', 'Floor']), dict(args=['cbrt_ctx', '2', '12', 'Down']), dict(args=['cbrt_ctx', '-2', '12', 'Ceiling']),
-         dict(args=['cbrt_ctx', '1e-7', '6', 'HalfUp']), dict(args=['cbrt_ctx', '123456.789', '9', 'Up'])])],
+         dict(args=['cbrt_ctx', '1e-7', '6', 'HalfUp']), dict(args=['cbrt_ctx', '123456.789', '9', 'Up']),
+         # at least 3(p+4) digits with a positive scale that is not a multiple of three
+         dict(args=['cbrt_ctx', '123456789012345678901234567890.1', '5', 'Down'])])],
      level_text=('PARTIAL. Verus proves the entry points only: cbrt() is cbrt_with_context at the configured default context, zero and one are returned unchanged, everything else is '
                  'handed to the numeric core with its sign. The core impl_cbrt_int_scale / impl_cbrt_uint_scale is NOT under contract; one genuine defect (inexact integer root treated '
                  'as exact when the trimmed digits are zero) is replayed with an integer oracle and listed as a known finding'),
@@ -177,13 +180,42 @@ prop('C12', units=['inverse', 'prim_div', 'core', 'context', 'config'], level='p
      hooks=[_h.replay_hook([
          dict(args=['inverse_mirror', '3e-9', '100']), dict(args=['inverse_mirror', '7', '5']),
          dict(args=['inverse_ctx', '7.8125e16', '3', 'Down']), dict(args=['inverse_ctx', '8', '5', 'Up']), dict(args=['inverse_ctx', '-3', '4', 'Floor']),
-         dict(args=['inverse_ctx', '3', '1', 'Down']), dict(args=['inverse_ctx', '0.0009765625', '10', 'HalfEven'])])],
+         dict(args=['inverse_ctx', '3', '1', 'Down']), dict(args=['inverse_ctx', '0.0009765625', '10', 'HalfEven']),
+         dict(args=['inverse_ctx', '2', '1', 'Down']), dict(args=['inverse_ctx', '2', '1', 'Floor']), dict(args=['inverse_ctx', '125', '2', 'Down']),
+         dict(args=['inverse_ctx', '0.5', '1', 'Down']), dict(args=['inverse_ctx', '2', '1', 'HalfDown']), dict(args=['inverse_ctx', '25', '2', 'Down']),
+         # bit lengths that drive the f64 start value through underflow (1075-bit coefficients)
+         dict(args=['inverse_ctx', str(2 ** 1074), '5', 'HalfEven']), dict(args=['inverse_ctx', '3' * 324, '5', 'HalfEven'])])],
      level_text=('PARTIAL. Verus proves the entry points: inverse() is inverse_with_context at the configured default context, zero and one are returned unchanged, the magnitude is passed '
                  'down under the mode as seen from the positive side and the sign of x is copied, so that inverse(-x) under m equals -inverse(x) under the mirrored mode (lemma_inverse_mirror, '
                  'after the fix: commit); a primitive 1 / x routes to inverse(). Accuracy and termination of the Newton iteration impl_inverse_uint_scale are NOT decided (no contract '
-                 'within reach expresses convergence from an f64 start value); a few inputs are replayed with an integer oracle'),
+                 'within reach expresses convergence from an f64 start value); a few inputs are replayed with an integer oracle, four of which are genuine defects listed as known findings '
+                 '(a reciprocal with exactly p digits comes out one unit too small under Down / Floor)'),
      level_note=_NOTE_COMMON + ' A change inside the Newton loop is not seen by this check except through the replayed inputs.',
      technique=_TECH + '; replay of concrete inputs with an integer oracle')
+
+_C05_STUB = ('parse_small_2', 'parse_small_3', 'parse_small_3_scale', 'parse_small_3_digits', 'parse_small_3_utf8')
+_C05_BOUND = ('BOUNDED (not a proof): every string of at most 3 characters (quick: 2) over the alphabet {0 1 7 + - . e E _ x space}, and every string of at most 3 bytes '
+              'over {1 - . e 0xC2 0xBD} (which contains the two-byte character U+00BD), is run symbolically through the real BigDecimal::from_str_radix (radix 10) by Kani/CBMC '
+              'with loops unwound 6 times and unwinding assertions on; BigInt::from_str_radix is replaced by a recording stub and alloc::fmt::format by an empty-string stub')
+prop('C05', units=[], level='other',
+     hooks=[_h.kani_hook(['parse_small_2', 'parse_small_3_utf8'], tiers=('quick',), stubbing=_C05_STUB, bounded=_C05_BOUND, timeout=1500, required=True, concretize=['parse_sweep', '4']),
+            _h.kani_hook(list(_C05_STUB), tiers=('thorough',), stubbing=_C05_STUB, bounded=_C05_BOUND, timeout=2400, jobs=5, required=True, concretize=['parse_sweep', '4']),
+            _h.replay_hook([dict(args=['parse_sweep', '4'], what='native sweep of all strings up to 4 characters against the grammar recogniser')], tiers=('thorough',))],
+     explanation=('BOUNDED CHECK, NOT A PROOF. The parser works on str (find / split_at / starts_with / char tests), which Verus cannot reason about, so no contract can be put on '
+                  'from_str_radix; the stand-in is Kani/CBMC on the real function for every string up to a small length over an alphabet that contains every structural character of the numeral '
+                  'grammar (digits, both signs, the point, both exponent markers, the underscore, a letter, a blank, and a two-byte UTF-8 character). Checked against a reference recogniser '
+                  'written from the property statement: (1) a string is accepted exactly when it is a numeral of the grammar, (2) the scale of the result is fraction digits minus exponent, '
+                  '(3) the integer parser is handed exactly the sign and digits of the numeral without the point, (4) no panic / overflow / out-of-bounds on any of these inputs '
+                  '(CBMC checks every arithmetic operation, slice index and unwrap). The thorough tier adds the length-3 harnesses and a native sweep up to length 4. '
+                  'This found the genuine defect "a sign after the decimal point is accepted" (fixed, commit 343238e). Longer inputs, other characters, radix != 10 and parse_bytes on invalid UTF-8 '
+                  'are NOT covered (the two Kani harnesses for them give no verdict within the memory available)'),
+     level_text=('BOUNDED, not proved: Kani/CBMC symbolic execution of the real from_str_radix over all strings up to 3 characters of a structural alphabet, against a reference recogniser of the numeral grammar '
+                 '(acceptance, scale, digits handed to the integer parser, absence of panics)'),
+     level_note=('Bound: length <= 3 (quick: 2), alphabet of 11 ASCII characters plus one two-byte character; BigInt::from_str_radix and fmt::format stubbed; failed checks inside Kani\'s own '
+                 'kani_lib.c dealloc model are ignored as artefacts of the format stub (listed in the evidence). No statement about longer strings.'),
+     trusted_base=['Kani 0.68 / CBMC 6.11 and their model of the Rust standard library', 'stub of <BigInt as Num>::from_str_radix (records its argument, accepts sign + digits/underscores)',
+                   'stub of alloc::fmt::format (returns an empty String; error messages are not examined)', 'reference recogniser of the numeral grammar in kani/harnesses.rs (written from the property statement)'],
+     technique='bounded model checking with Kani/CBMC on the real parser (stand-in where no contract can be written; labelled bounded)')
 
 prop('C14', units=['float', 'core', 'types', 'conv'], level='proof',
      hooks=[_h.kani_hook(['split_f32', 'split_f64'])],
